@@ -134,12 +134,12 @@ PROPS = {
     assumptions=["counts stay below the documented u32::MAX reset"],
  ),
  "C04": dict(
-    level_text="Lean 4 proof of `no reachable state is stuck` (an accepted event pending, all producers returned, every live stream parked and un-notified) for the poll/park/wake protocol model, for all seven wake rules (uni full-sync, atomic, crossbeam, send-reserved; a Multi listener's queue on the atomic and on the full-sync channels; the log channel), every number of streams/producers/buffer sizes/schedules, spurious polls and waker changes included, by an inductive invariant - BOTH for publications that are one atomic queue step observing the exact length (lock-based and crossbeam kinds) AND for the two-phase publications of the channels over AtomicMove (claim a sequence number; publish in claim order; measure the length by a fresh load of head AFTER the publication), interleaved arbitrarily with the streams' steps and with suspended asynchronous sends of the movable atomic channel; counterexample theorems for what the invariant does not survive (MAX_STREAMS = 0; the pinned claim-time length: findings D5a/D5b, repaired in /repo). The wake decision of EVERY send path of EVERY channel is re-read from the current source on every run by the translator (tools/extract.py G3 -> Generated/WakeRules.lean, a guard-chain term per function) and proved, for all MAX_STREAMS and lengths, to compute the model rule the theorem is instantiated with (Props/C04_Rules.lean, 24 send paths). Tied to the real channels by step-level replay of scheduled runs at two granularities: streams-manager accesses only (all kinds), and additionally the publication CAS and the length measurement of the two-phase ring as yield points (`sub=mid`: uni movable atomic, Multi arc atomic) - including plain sends spinning behind suspended reservations; stuck states are decided by the scheduler (nobody runnable), not timed out. A third, finest search (every ring access a yield point) judges the implementation alone.",
+    level_text="Lean 4 proof of `no reachable state is stuck` (an accepted event pending, all producers returned, every live stream parked and un-notified) for the poll/park/wake protocol model, for all seven wake rules (uni full-sync, atomic, crossbeam, send-reserved; a Multi listener's queue on the atomic and on the full-sync channels; the log channel), every number of streams/producers/buffer sizes/schedules, spurious polls and waker changes included, by an inductive invariant - BOTH for publications that are one atomic queue step observing the exact length (lock-based and crossbeam kinds) AND for the two-phase publications of the channels over AtomicMove (claim a sequence number; publish in claim order; measure the length by a fresh load of head AFTER the publication), interleaved arbitrarily with the streams' steps and with suspended asynchronous sends of the movable atomic channel; counterexample theorems for what the invariant does not survive (MAX_STREAMS = 0; the pinned claim-time length: findings D5a/D5b, repaired in /repo). The wake decision of EVERY send path of EVERY channel is re-read from the current source on every run by the translator (tools/extract.py G3 -> Generated/WakeRules.lean, a guard-chain term per function) and proved, for all MAX_STREAMS and lengths, to compute the model rule the theorem is instantiated with (Props/C04_Rules.lean, 24 send paths). Tied to the real channels by step-level replay of scheduled runs at two granularities: streams-manager accesses only (all kinds), and additionally the publication CAS and the length measurement of the two-phase ring as yield points (`sub=mid`: uni movable atomic, uni zero-copy atomic, Multi arc atomic, Multi ogre_arc atomic - for the pooled kinds the driver absorbs the steps of the pool's free-list ring and frees the model's slot at the instant the deallocation's publication CAS succeeds) - including plain sends spinning behind suspended reservations; stuck states are decided by the scheduler (nobody runnable), not timed out. A third, finest search (every ring access a yield point) judges the implementation alone.",
     level_note="Theorem about model M8, in which a ring operation is one step (C02) except for the producer's publication / length measurement on the two-phase ring, which are separate steps; the consumer's dequeue is one step at its linearization point (C02: the head CAS), the producer's head load reads the number of completed dequeues; one task per stream token for C07; Multi channels are replayed through one listener (MAX_STREAMS = 1; with several listeners each queue runs the same protocol independently); the log channel wakes every listed listener after every publication: rule `all`, an instance of the theorem like the others (its wake decision is read from the source by G3; its protocol is exercised by `mmaplog sub=wake`). The movable full-sync channel's send_with_async holds the queue-wide lock while suspended (finding D8b of C20): it is outside the executions of the theorem. The reserved-send paths (try_send_reserved) are modelled as one step.",
     lean=["C04", "C04_Rules"],
     scenarios=[dict(bin="uni", args=[f"kind={k}", "sub=flow"], runs=500, model_name="M8 Wake", kinds=["lost_wakeup", "no_progress", "panic"]) for k in UNI_KINDS] +
               [dict(bin="uni", args=[f"kind={k}", "sub=flow"], runs=300, model_name="M8 Wake", kinds=["lost_wakeup", "no_progress", "panic"]) for k in MULTI1_KINDS] +
-              [dict(bin="uni", args=[f"kind={k}", "sub=mid"], runs=800, model_name="M8 Wake (two-phase publication: publication CAS and length measurement are yield points)", kinds=["lost_wakeup", "no_progress", "panic"]) for k in ["matomic", "marc_atomic"]] +
+              [dict(bin="uni", args=[f"kind={k}", "sub=mid"], runs=800, model_name="M8 Wake (two-phase publication: publication CAS and length measurement are yield points)", kinds=["lost_wakeup", "no_progress", "panic"]) for k in ["matomic", "marc_atomic", "zatomic", "mogre_atomic"]] +
               [dict(bin="uni", args=[f"kind={k}", "sub=fine"], runs=300, model=False, model_name="(oracle only)", kinds=["lost_wakeup", "no_progress", "panic"]) for k in UNI_KINDS] +
               [dict(bin="mmaplog", args=["sub=wake"], runs=600, model=False, model_name="(oracle only: log channel, parked listener tasks)", kinds=["lost_wakeup", "no_progress", "panic"])],
     rule=UNI_RULE + "; `sub=mid`: additionally the publication CAS (am.p.publish) and the length measurement (am.p.len) of the two-phase ring; log channel (`mmaplog sub=wake`): 1-2 new-events listeners driven by tasks that are polled only while notified, 1-3 producers (send / send_with), yield points at every log-topic access and every wake-protocol access",
